@@ -69,6 +69,37 @@ theorem escape_aborts (proc : Row → RowOutcome R) (pre post : List (String × 
     simp only [List.cons_append, processTable, ih]
     cases proc rw <;> rfl
 
+/-- **Every documented row fault is recorded as that row's error and never aborts the batch**: whatever
+combination of faults the rows of a table have, processing completes with one entry per row. -/
+theorem documented_faults_never_abort (rows : List (String × SampleRow)) :
+    ∃ res, processTable sampleRowOutcome rows = some res ∧ res = rows.map (fun r => (r.1, sampleRowOutcome r.2)) := by
+  have hc : ∀ r ∈ rows, Contained sampleRowOutcome r.2 := by
+    intro r _
+    unfold Contained sampleRowOutcome
+    cases sampleRowFault r.2 <;> simp
+  obtain ⟨res, hres⟩ := batch_completes sampleRowOutcome rows hc
+  exact ⟨res, hres, isolation sampleRowOutcome rows res hres⟩
+
+/-- precedence of the checks: a missing file hides everything else; too few events hide unit and gate problems -/
+theorem fault_precedence (r : SampleRow) :
+    (r.fileFound = false → sampleRowFault r = some .fileNotFound) ∧
+    (r.fileFound = true → r.nEvents < 400 → sampleRowFault r = some .tooFewEvents) := by
+  constructor
+  · intro h; simp [sampleRowFault, h]
+  · intro h1 h2; simp [sampleRowFault, h1, h2]
+
+/-- a healthy row (file present, enough events, recognised units, calibration available and matching, gate
+fraction in range) reports no fault -/
+theorem healthy_row_no_fault (r : SampleRow) (h1 : r.fileFound = true) (h2 : 400 ≤ r.nEvents)
+    (h3 : ∀ c ∈ r.channels, channelFault r.beadsTableGiven c.1 c.2 = none) (h4 : r.gateFractionOk = true) :
+    sampleRowFault r = none := by
+  have hn : ¬ r.nEvents < 400 := by omega
+  have hf : r.channels.findSome? (fun (u, m) => channelFault r.beadsTableGiven u m) = none := by
+    rw [List.findSome?_eq_none_iff]
+    intro c hc
+    exact h3 c hc
+  simp [sampleRowFault, h1, hn, hf, h4]
+
 /-! Non-vacuity: a 3-row table, middle row faulty -/
 example : processTable (fun (n : Nat) => if n = 0 then RowOutcome.fault Fault.gateFraction else RowOutcome.ok (n * 2))
     [("a", 3), ("b", 0), ("c", 5)] = some [("a", .ok 6), ("b", .fault .gateFraction), ("c", .ok 10)] := by decide
